@@ -296,7 +296,7 @@ Proof.
         destruct (mem_id t chosen); split; solve [exact Lr|reflexivity].
       * apply NU_filter. exact C.
     + apply nu_set_subs_upd; [|exact NU0]. intros r _ _ Lr. cbn in Lr. discriminate Lr.
-    + destruct (sweep_each st (sort_ids chosen) wnow fr) as [[[st1 fr1] w] n] eqn:SW.
+    + destruct (sweep_each st chosen wnow fr) as [[[st1 fr1] w] n] eqn:SW.
       cbn [done r_state]. apply sweep_each_sn in SW. eapply nu_same; eauto.
 Qed.
 
